@@ -107,9 +107,73 @@ fn special_tag(lines: &[String]) -> &'static str {
     if all.contains("nan") { "nan" } else if all.contains("-0") { "pm0" } else if all.contains(";;") { "nulls" } else { "plain" }
 }
 
+/// ORACLE-ONLY large streams (no case for the Lean model: its list memory is quadratic): `n` distinct tuples
+/// followed by recurrences of early, middle and late ones; records(DISTINCT q) must be exactly the first occurrences
+/// of records(q), computed here with a hash set on the rendered rows. Catches a DISTINCT memory that forgets
+/// (is bounded, cleared, sampled) once it holds many tuples.
+fn large_stream(run: &mut Run, rng: &mut Rng, n: usize, two_columns: bool) {
+    use std::collections::HashSet;
+    use std::fmt::Write;
+    let mut content = String::with_capacity(n * 14 + 4096);
+    let keys = ["a", "b", "c"];
+    let mut nlines = 0usize;
+    let mut push = |content: &mut String, i: usize| {
+        // tuple i: v = i (and k cycling with i, so that both columns are needed to tell tuples apart)
+        if two_columns { content.push_str(keys[i % 3]); }
+        let _ = write!(content, ";{};;;;\n", if two_columns { i / 3 } else { i });
+    };
+    for i in 0..n { push(&mut content, i); nlines += 1; }
+    // recurrences: early, middle, late, and a random sample; then a few fresh tuples and the same recurrences again
+    let mut again: Vec<usize> = vec![0, 1, 2, 99_999 % n, 100_000 % n, 100_001 % n, n / 2, n / 2 + 1, n - 2, n - 1];
+    for _ in 0..40 { again.push(rng.below(n)); }
+    for &i in &again { push(&mut content, i); nlines += 1; }
+    for i in n..n + 5 { push(&mut content, i); nlines += 1; }
+    for &i in &again { push(&mut content, i); nlines += 1; }
+    let cols = if two_columns { "k, v" } else { "v" };
+    let defs = format!("{}\n{}", MAIN_DEF, JOIN_DEF);
+    let files = vec![content.into_bytes()];
+    let desc = format!("large stream: {} distinct tuples ({}), then {} recurrences, 5 fresh tuples, the recurrences again; SELECT [DISTINCT] {} FROM t", n, if two_columns { "k cycling a,b,c with v = i/3" } else { "v = 0..n" }, again.len(), cols);
+    let plain = match prepare(&defs, &format!("SELECT {} FROM t", cols)) { Ok(p) => p, Err(_) => return };
+    let dist = match prepare(&defs, &format!("SELECT DISTINCT {} FROM t", cols)) { Ok(p) => p, Err(_) => return };
+    let rp = run_files(&plain, &files);
+    let rd = run_files(&dist, &files);
+    run.oracle_checks += 1;
+    run.count(&format!("large-stream:{}:{}", if two_columns { "2col" } else { "1col" }, n));
+    if rp.status != "ok" || rd.status != "ok" || rp.printed.len() != nlines {
+        run.fail(desc, "large-stream-run-fails", format!("status {} / {} records {} of {} lines", rp.status, rd.status, rp.printed.len(), nlines));
+        return;
+    }
+    let mut seen: HashSet<&str> = HashSet::with_capacity(n + 16);
+    let want: Vec<&str> = rp.printed.iter().map(|s| s.as_str()).filter(|s| seen.insert(*s)).collect();
+    if rd.printed.len() != want.len() || rd.printed.iter().zip(want.iter()).any(|(a, b)| a != b) {
+        let pos = rd.printed.iter().zip(want.iter()).position(|(a, b)| a != b).unwrap_or(want.len().min(rd.printed.len()));
+        let class = if rd.printed.len() > want.len() { "distinct-duplicate-emitted:large-stream" } else if rd.printed.len() < want.len() { "distinct-row-lost:large-stream" } else { "distinct-other-row-or-order:large-stream" };
+        run.fail(desc, class, format!("DISTINCT printed {} records, the first occurrences are {}; first difference at record {}: {:?} vs {:?}", rd.printed.len(), want.len(), pos, rd.printed.get(pos), want.get(pos)));
+        return;
+    }
+    // COUNT(DISTINCT v): the number of distinct non-NULL values
+    if !two_columns {
+        let cd = match prepare(&defs, "SELECT COUNT(DISTINCT v) FROM t") { Ok(p) => p, Err(_) => return };
+        let rc = run_files(&cd, &files);
+        run.oracle_checks += 1;
+        let got = rc.records().get(0).and_then(|r| r.rsplit(": ").next().and_then(|x| x.parse::<usize>().ok()));
+        if rc.status != "ok" || got != Some(n + 5) {
+            run.fail(desc, "count-distinct-wrong:large-stream", format!("COUNT(DISTINCT v) printed {:?} ({}), there are {} distinct values", rc.records(), rc.status, n + 5));
+        }
+    }
+}
+
 pub fn run(p: &Params) -> Run {
     let mut run = Run::new("C08");
     let mut rng = Rng::new(p.seed ^ 0x08);
+    // large streams first (oracle only)
+    let sizes: Vec<(usize, bool)> = if p.tier_thorough {
+        vec![(100_001, false), (130_000, false), (200_003, true), (260_000, false), (524_288, false), (1_050_000, true)]
+    } else {
+        let extra = 100_001 + rng.below(60_000);
+        vec![(extra, false), (262_150, true)]
+    };
+    for (n, two) in sizes { large_stream(&mut run, &mut rng, n, two); }
     let iterations = p.n(2000, 50_000);
     let jpath = crate::runq::tmp_file(b"");
     let jp = jpath.display().to_string();
